@@ -20,6 +20,7 @@ PROP = {  # commit subject keyword -> property
     "temporary register after the last instruction": "C05", "running out of general registers": "C05",
     "three-byte VEX prefix set pp=66": "C12",
     "VEX encoding of the float compare": "C12",
+    "leaked the compiler object": "C16",
 }
 log = subprocess.run(["git", "-C", "/repo", "log", "--format=%h %s"], stdout=subprocess.PIPE, text=True).stdout.strip().split("\n")
 fixed = []
